@@ -125,6 +125,35 @@ def lattice_room(meta):
     return True
 
 
+def as_restart_file(cfg, meta, wd):
+    from infretis.setup import TOMLConfigError, setup_config
+
+    n = max(meta["n"], 1)
+    cfg = dict(cfg)
+    cfg["current"] = {"traj_num": n, "cstep": 5, "active": list(range(n)), "locked": [], "size": n, "frac": {}}
+    load = os.path.join(wd, cfg["simulation"].get("load_dir", "load"))
+    for k in range(n):
+        os.makedirs(os.path.join(load, str(k)), exist_ok=True)
+        open(os.path.join(load, str(k), "traj.txt"), "a").close()
+    for f in os.listdir(wd):
+        if f.startswith("infretis_data") or f in ("restart.toml", "infretis.toml"):
+            os.remove(os.path.join(wd, f))
+    with open(os.path.join(wd, "restart.toml"), "wb") as f:
+        tomli_w.dump(cfg, f)
+    old = os.getcwd()
+    os.chdir(wd)
+    try:
+        try:
+            out = setup_config("restart.toml")
+            return "accepted" if out is not None else "none"
+        except TOMLConfigError:
+            return "rejected"
+        except Exception as e:  # noqa: BLE001
+            return f"raised:{type(e).__name__}"
+    finally:
+        os.chdir(old)
+
+
 def judge_one(args):
     (ik, workers, mv_len, mv_pat, capk, engk, lm1k, quantis), wd = args
     from infretis.setup import TOMLConfigError, setup_config
@@ -151,6 +180,11 @@ def judge_one(args):
     finally:
         os.chdir(old)
     key = (ik, workers, mv_len, mv_pat, capk, engk, lm1k, quantis)
+    if not ok and res == "rejected" and meta["n"] >= 1:
+        # the same settings in a restart file (the user edits restart.toml to continue a run): must be rejected too
+        res2 = as_restart_file(cfg, meta, wd)
+        if res2 != "rejected":
+            return key, f"invalid({reason})-in-a-restart-file-but-{res2}", "", meta
     if ok and res == "accepted":
         return key, "ok-accepted", None, meta
     if not ok and res == "rejected":
